@@ -13,7 +13,7 @@
     records, B's subscriptions and connection records, clock and timer).  Nameplate
     row ids (global AUTOINCREMENT, never visible to clients) are abstracted. *)
 From MW Require Import Base Store Monad Usage Server Websocket Service Findings Inv Obs
-     ProtoFacts StepFacts IsoFacts NonInterference NonInterferenceR Inst_Params.
+     ProtoFacts StepFacts IsoFacts NonInterference NonInterferenceR NonInterferenceX Inst_Params.
 Local Open Scope list_scope.
 
 (** what B observes and what is stored for B is the same whether or not clients of other apps are active *)
@@ -110,3 +110,70 @@ Example C06_nonvacuous :
   no_failure_run cfg (init cfg 0) h /\
   List.length (filterB cfg "B" (init cfg 0) h) = 4%nat.
 Proof. vm_compute. repeat split; reflexivity. Qed.
+
+(** * crashes inside ANY event (quoted by type from NonInterferenceX.v).  A crash inside another app's command is,
+    for app B, a restart: [filterX] maps it to [ERestart]; a crash inside a connect / disconnect / B's own command
+    stays; a crash inside a sweep stays with a possibly different commit index (the sweep goes app by app), so the
+    filtered history is then given by the relation [FX].  Frames of a crash event are attributed by the connection
+    table the completed event would leave ([framesX_run]; after the crash the table is empty). *)
+
+(** every snapshot another app's command commits leaves B's rows and usage records as they were *)
+Theorem C06_cmd_snapshots : ltac:(let t := type of cmd_snapshots in exact t).
+Proof. exact cmd_snapshots. Qed.
+Check C06_cmd_snapshots.
+Print Assumptions C06_cmd_snapshots.
+
+(** the process dies after any commit of another app's command: for B exactly a restart *)
+Theorem C06_dropped_cmd_crash : ltac:(let t := type of dropped_cmd_crash in exact t).
+Proof. exact dropped_cmd_crash. Qed.
+Check C06_dropped_cmd_crash.
+Print Assumptions C06_dropped_cmd_crash.
+
+(** crash around a connect / disconnect *)
+Theorem C06_kept_conn_crash : ltac:(let t := type of kept_conn_crash in exact t).
+Proof. exact kept_conn_crash. Qed.
+Check C06_kept_conn_crash.
+Print Assumptions C06_kept_conn_crash.
+
+(** crash inside a sweep or timer-driven advance: there is a commit index in the smaller run that leaves B the same *)
+Theorem C06_kept_sweep_crash : ltac:(let t := type of kept_sweep_crash in exact t).
+Proof. exact kept_sweep_crash. Qed.
+Check C06_kept_sweep_crash.
+Print Assumptions C06_kept_sweep_crash.
+
+(** history level: commands, sweeps, restarts, crashes inside any command / connect / disconnect *)
+Theorem C06_noninterference_x : ltac:(let t := type of noninterference_x in exact t).
+Proof. exact noninterference_x. Qed.
+Check C06_noninterference_x.
+Print Assumptions C06_noninterference_x.
+
+(** ... and the filtered run has no internal failure *)
+Theorem C06_noninterference_x_no_failure : ltac:(let t := type of noninterference_x_no_failure in exact t).
+Proof. exact noninterference_x_no_failure. Qed.
+Check C06_noninterference_x_no_failure.
+Print Assumptions C06_noninterference_x_no_failure.
+
+(** history level, crashes inside EVERY kind of event (existential in the sweep-crash indices) *)
+Theorem C06_noninterference_xs : ltac:(let t := type of noninterference_xs in exact t).
+Proof. exact noninterference_xs. Qed.
+Check C06_noninterference_xs.
+Print Assumptions C06_noninterference_xs.
+
+(** why frames of crash events are attributed by the pre-crash connection table: the older classification is false there *)
+Theorem C06_framesB_run_dropped_crash_refuted : ltac:(let t := type of framesB_run_dropped_crash_refuted in exact t).
+Proof. exact framesB_run_dropped_crash_refuted. Qed.
+Check C06_framesB_run_dropped_crash_refuted.
+Print Assumptions C06_framesB_run_dropped_crash_refuted.
+
+(** non-vacuity: app a's claim crashed after its first commit while app b holds a nameplate and a mailbox with a message *)
+Theorem C06_noninterference_x_nonvacuous : ltac:(let t := type of noninterference_x_nonvacuous in exact t).
+Proof. exact noninterference_x_nonvacuous. Qed.
+Check C06_noninterference_x_nonvacuous.
+Print Assumptions C06_noninterference_x_nonvacuous.
+
+(** non-vacuity: a timer sweep crashed at commit 5 of 7 = commit 2 of 4 in the run without the other app *)
+Theorem C06_noninterference_xs_nonvacuous : ltac:(let t := type of noninterference_xs_nonvacuous in exact t).
+Proof. exact noninterference_xs_nonvacuous. Qed.
+Check C06_noninterference_xs_nonvacuous.
+Print Assumptions C06_noninterference_xs_nonvacuous.
+
